@@ -32,6 +32,7 @@ TTxLog == IsEvent("TxLog") /\ UNCHANGED dummy /\ Consume
 (* how many frames the library's own log says it dropped in this schedule (used to attribute losses to the known finding) *)
 TDrops == IsEvent("Drops") /\ UNCHANGED dummy /\ Consume
 TMech == IsEvent("Mech") /\ UNCHANGED dummy /\ Consume
-TraceNext == TDrops \/ TTxLog \/ TMech \/ TCrash \/ TApi \/ TReads \/ TTncData \/ TExchange \/ TMalformed
+TMuxLog == IsEvent("MuxLog") /\ UNCHANGED dummy /\ Consume      \* validated against AgwpeMux.tla (AgwpeMuxTrace.tla)
+TraceNext == TMuxLog \/ TDrops \/ TTxLog \/ TMech \/ TCrash \/ TApi \/ TReads \/ TTncData \/ TExchange \/ TMalformed
 TraceSpec == TraceInit /\ [][TraceNext]_<<dummy, tvars>>
 =============================================================================
